@@ -793,9 +793,9 @@ esl_buffer_SetStableAnchor(ESL_BUFFER *bf, esl_pos_t offset)
 
   if ( (status = esl_buffer_SetAnchor(bf, offset)) != eslOK) return status;
 
-  ndel       = bf->anchor;
-  bf->anchor = 0;
-  bf->n     -= ndel;
+  ndel        = ESL_MIN(bf->anchor, bf->pos);  /* an anchor ahead of the parser: rebase on <pos>, never move <pos> below 0 */
+  bf->anchor -= ndel;
+  bf->n      -= ndel;
   bf->pos   -= ndel;
   if (bf->n) memmove(bf->mem, bf->mem+ndel, bf->n);
   bf->baseoffset += ndel;
@@ -1715,8 +1715,9 @@ buffer_refill(ESL_BUFFER *bf, esl_pos_t nmin)
   /* Relocation, shift left to conserve memory */
   if (bf->balloc - bf->n < bf->pagesize && bf->pos > 0)
     {
-      if (bf->anchor == -1)   ndel = bf->pos;                   
-      else                  { ndel = bf->anchor; bf->anchor = 0; }
+      if      (bf->anchor == -1)      ndel = bf->pos;
+      else if (bf->anchor > bf->pos) { ndel = bf->pos;    bf->anchor -= ndel; } /* anchor ahead of the parser: keep everything from <pos> on */
+      else                           { ndel = bf->anchor; bf->anchor = 0;     }
       bf->n   -= ndel;
       bf->pos -= ndel;
       if (bf->n) {
